@@ -914,7 +914,15 @@ class Pass2(CompilePass):
                 )
         self.compilation.perform_argument_matching(node, 'sub')
 
+    def _check_not_const(self, lvalue):
+        # INPUT, READ and FOR store into their variables just like an
+        # assignment does
+        if lvalue.base_var in lvalue.parent_routine.local_consts or \
+           lvalue.base_var in self.compilation.global_consts:
+            raise CompileError(EC.DUPLICATE_DEFINITION, node=lvalue)
+
     def process_for_block_pre(self, node):
+        self._check_not_const(node.var)
         if not node.var.base_type.is_numeric:
             raise CompileError(
                 EC.TYPE_MISMATCH,
@@ -924,10 +932,20 @@ class Pass2(CompilePass):
 
     def process_input_pre(self, node):
         for lvalue in node.var_list:
+            self._check_not_const(lvalue)
             if not lvalue.type.is_builtin:
                 raise CompileError(
                     EC.TYPE_MISMATCH,
                     'Input can only have builtin types',
+                    node=lvalue)
+
+    def process_read_pre(self, node):
+        for lvalue in node.var_list:
+            self._check_not_const(lvalue)
+            if not lvalue.type.is_builtin:
+                raise CompileError(
+                    EC.TYPE_MISMATCH,
+                    'READ can only have builtin types',
                     node=lvalue)
 
     def process_view_print_pre(self, node):
